@@ -115,6 +115,7 @@ def gen(rng, tier, dist):
             add(b[:k], "truncation")
     # crafted witnesses of the repaired defects (D5)
     add(b"", "witness")
+    add(b"/a\0\0,bi\0\xff\xff\xff\xfc", "witness")
     add(b"/a\0\0,bi\0\xff\xff\xff\xfc\0\0\0\0", "witness")
     add(b"#bundle\0" + b"\0" * 8 + b"\xff\xff\xff\xfc", "witness")
     return out
